@@ -106,6 +106,29 @@ FAIL_RE = re.compile(r'^<<"FAIL", "([^"]+)", (-?\d+), "([^"]+)", (.*)>>$')
 NOTE_RE = re.compile(r'^<<"NOTE", "([^"]+)", (-?\d+), (.*)>>$')
 OUT_RE = re.compile(r'^<<"OUT", (.*)>>$')
 
+WRAP_RE = re.compile(r'^<< "(FAIL|NOTE|OUT)",')
+def unwrap_tuples(lines):
+    """TLC pretty-prints a printed tuple wider than 80 columns over several lines ('<< "FAIL",' / '   "C01",' / ... / '   3 >>').
+    Join such a tuple back into the one-line form the FAIL / NOTE / OUT patterns expect."""
+    out = []; acc = None; depth = 0
+    for line in lines:
+        if acc is None:
+            if WRAP_RE.match(line):
+                acc = [line.strip()]; depth = line.count("<<") - line.count(">>")
+                if depth <= 0:
+                    out.append(_norm_tuple(" ".join(acc))); acc = None
+            else:
+                out.append(line)
+        else:
+            acc.append(line.strip()); depth += line.count("<<") - line.count(">>")
+            if depth <= 0:
+                out.append(_norm_tuple(" ".join(acc))); acc = None
+    if acc is not None:
+        out.append(_norm_tuple(" ".join(acc)))
+    return out
+def _norm_tuple(t):
+    return re.sub(r"\s+>>", ">>", re.sub(r"<<\s+", "<<", t))
+
 class TlcResult:
     def __init__(self):
         self.rc = 0; self.out = ""; self.generated = 0; self.distinct = 0; self.fails = []; self.notes = []; self.outs = []
@@ -134,7 +157,7 @@ def tlc(module, cfg, env=None, workers=1, timeout=900, heap="3g", simulate=None,
     finally:
         shutil.rmtree(md, ignore_errors=True)
     r.wall = time.time() - t0; r.rc = p.returncode; r.out = p.stdout.decode(errors="replace")
-    for line in r.out.splitlines():
+    for line in unwrap_tuples(r.out.splitlines()):
         m = FAIL_RE.match(line)
         if m:
             r.fails.append({"prop": m.group(1), "line": int(m.group(2)), "clause": m.group(3), "detail": m.group(4)}); continue
